@@ -841,6 +841,20 @@ class FX:
             return e.id in self.numeric
         if isinstance(e, ast.Constant):
             return isinstance(e.value, (int, float)) and not isinstance(e.value, bool)
+        if isinstance(e, ast.BinOp) and isinstance(e.op, (ast.FloorDiv, ast.Mod, ast.Pow)):
+            # `//`, `%`, `**` do not exist on hardware values: Python-level integer arithmetic
+            def leaves_ok(x):
+                if isinstance(x, ast.BinOp):
+                    return leaves_ok(x.left) and leaves_ok(x.right)
+                if isinstance(x, ast.UnaryOp):
+                    return leaves_ok(x.operand)
+                if isinstance(x, (ast.Name, ast.Attribute)):
+                    return True
+                if isinstance(x, ast.Constant):
+                    return isinstance(x.value, (int, float)) and not isinstance(x.value, bool)
+                return self._is_numeric(x)
+            if leaves_ok(e):
+                return True
         if isinstance(e, ast.BinOp) and isinstance(e.op, (ast.Add, ast.Sub, ast.Mult, ast.FloorDiv, ast.Mod, ast.Pow, ast.LShift,
                                                           ast.RShift, ast.Div)):
             a, b = self._is_numeric(e.left), self._is_numeric(e.right)
